@@ -230,10 +230,63 @@ def rule_join(run):
     run.ob(ok, "_try_join", file=vb.rel, line=ver.lineno, detail="verified-by-construction", expected="result_type(option) for every option, failure => no join", found="ok" if ok else "changed")
     ok = dotted(ver.iter) == "options" and dotted(loops[0].iter) == "options"
     run.ob(ok, "_try_join", file=vb.rel, line=ver.lineno, detail="all-options", expected="both loops run over all options", found="ok" if ok else "changed")
+    # every caller hands over ALL alternatives: a caller that filters Null/Full out would let a narrower type be joined
+    n_calls = 0
+    for m in run.idx.all_modules("cohdl/"):
+        for q, g in m.functions.items():
+            for c in calls_in(g.node):
+                if dotted(c.func) == "_try_join" and g.node is not f.node:
+                    n_calls += 1
+                    a = c.args[0] if c.args else None
+                    if isinstance(a, ast.Name):
+                        defs = [x.value for x in walk_local(g.node) if isinstance(x, ast.Assign) and dotted(x.targets[0]) == a.id]
+                        a = defs[-1] if defs else a
+                    unfiltered = isinstance(a, ast.ListComp) and len(a.generators) == 1 and not a.generators[0].ifs
+                    cond = [anc for anc in m.parents.ancestors(c) if isinstance(anc, ast.IfExp)]
+                    run.ob(unfiltered and not cond, f"{m.rel.split('/')[-1]}::{q}", file=m.rel, line=c.lineno, detail="caller-passes-all-options",
+                           expected="_try_join([<option> for <branch> in <all branches>]) - unfiltered and unconditional", found=src(a)[:90] if a is not None else "?")
+    if n_calls < 1:
+        raise AnalysisError("_try_join has no caller")
     run.end()
 
 
-RULES = [rule_front, rule_back, rule_trial, rule_join]
+def rule_literals(run):
+    run.begin(
+        "C05.lit",
+        "bool literals: the constructor and the trial assignment of the boolean type agree on every literal: '0'/0/False "
+        "-> False, '1'/1/True -> True, any other string or integer is rejected (abstract evaluation over the literal domain)",
+        floor=14,
+    )
+    from ..absint import Interp, Reject
+
+    class _Self:
+        pass
+
+    bm = run.idx.mod("cohdl/_core/_boolean.py")
+    prims = {"isinstance": lambda v, t: (isinstance(v, t) if isinstance(t, type) else isinstance(v, tuple(x for x in t if isinstance(x, type))) if isinstance(t, tuple) else False),
+             "str": str, "int": int, "bool": bool, "__setattr__": lambda o, k, v: setattr(o, k, v)}
+    for meth in ("_Boolean.__init__", "_Boolean._assign"):
+        f = bm.func(meth)
+        for lit, exp in (("0", False), ("1", True), (0, False), (1, True), (False, False), (True, True), ("2", None), ("", None), ("true", None), (2, None), (-1, None)):
+            if meth.endswith("__init__") and isinstance(lit, int) and exp is None:
+                continue  # the constructor is also the bool() cast of integers (truthiness); only assignment restricts them
+            so = _Self()
+            try:
+                Interp(bm, dict(prims)).call_function(meth, so, lit)
+                got = getattr(so, "_value", "unset")
+            except Reject:
+                got = None
+            run.ob(got is exp if exp is not None else got is None, meth, file=bm.rel, line=f.node.lineno, detail=f"literal {lit!r}",
+                   expected=("rejected" if exp is None else str(exp)), found=("rejected" if got is None else str(got)), sample=(lit == "0"))
+    run.end()
+
+
+def rule_shadow(run):
+    from ..rules import shadow
+    shadow.run_rule(run, "F-SHADOW")
+
+
+RULES = [rule_front, rule_back, rule_trial, rule_join, rule_literals, rule_shadow]
 LEVEL = "other"
 EXPLANATION = (
     "Conversion matrices decided statically for all widths and values: (front end) the accept/reject decision and "
